@@ -216,7 +216,7 @@ func ruleDeadzonePrecedence(c *Ctx, dv *dev, paths []*Path) {
 	bad := ""
 	for _, p := range paths {
 		var chain []string
-		lastHit := false
+		lastHit, lastCond := false, ""
 		for _, a := range p.Atoms {
 			cnd, taken := a.Cond, a.Taken
 			for cnd.Op == "unop" {
@@ -224,6 +224,11 @@ func ruleDeadzonePrecedence(c *Ctx, dv *dev, paths []*Path) {
 			}
 			if cnd.Op != "lookupok" {
 				continue
+			}
+			if cs := cnd.String(); cs == lastCond && taken == lastHit {
+				continue // the outcome of the same lookup tested again (a loop condition, a final check of the ok flag)
+			} else {
+				lastCond = cs
 			}
 			ms := cnd.Args[0].String()
 			var d string
